@@ -46,7 +46,7 @@ def io_names(run, r):
     xi = run.fn('_export_state_to_dict')
     X = xi.node
     rets = [n for n in q.walk(X, False) if isinstance(n, ast.Return) and isinstance(n.value, ast.Name)]
-    run.anchor(len(rets) == 1, r, 'single `return <dict>` in _export_state_to_dict')
+    run.anchor(len(rets) >= 1 and len({n.value.id for n in rets}) == 1, r, '`return <dict>` in _export_state_to_dict')
     data = rets[0].value.id
     tdata = None
     for c in q.calls(X):
@@ -329,6 +329,9 @@ def check(run):
     for cname, keys in sorted(per_class.items()):
         if not prog.is_subclass(cname, 'StateMixin'):
             continue
+        keys = set(keys)
+        if prog.is_subclass(cname, 'ContractMixin'):
+            keys.add('contract')      # the importer appends contract items to every state it builds
         applicable = set()
         for k, vals in keys_written(xi.node, N['data']).items():
             for v, node in vals:
@@ -337,7 +340,7 @@ def check(run):
                     txt = a[1].replace(' ', '')
                     if txt.startswith('isinstance(%s,' % N['state']):
                         klass = txt[len('isinstance(%s,' % N['state']):-1]
-                        sub = prog.is_subclass(cname, klass)
+                        sub = any(prog.is_subclass(cname, k_) for k_ in klass.strip('()').split(','))
                         if (a[0] == 'truthy' and not sub) or (a[0] == 'falsy' and sub):
                             okk = False
                 if okk:
